@@ -1,0 +1,17 @@
+//go:build verif
+
+// Machine-checked contracts for package tagtype (comment-only; read by /verif/govc).
+// Property C33: the dependency list of a replication task is what the resolver configured for the
+// tag's namespace says. The configuration is an ordered list of (pattern, resolver); the first
+// entry whose pattern matches the tag decides - a broader catch-all entry placed after a specific
+// one never takes over the specific one's tags.
+
+package tagtype
+
+//@ func Map.Resolve
+//@   requires m != nil && (forall j int :: 0 <= j && j < len(m.subResolvers) ==> m.subResolvers[j] != nil)
+//@   modifies *
+//@   assert first_match_decides: at DependencyResolver.Resolve#0 :: exists k int :: 0 <= k && k < len(m.subResolvers) && recv == m.subResolvers[k].resolver && rematch(m.subResolvers[k].regexp, tag) && (forall j int :: 0 <= j && j < k ==> !rematch(m.subResolvers[j].regexp, tag))
+//@   ensures unmatched_is_an_error: (forall j int :: 0 <= j && j < len(m.subResolvers) ==> !rematch(m.subResolvers[j].regexp, tag)) ==> result1 != nil
+//@   loop 0 invariant none_before: 0 - 1 <= rangeindex && rangeindex < len(m.subResolvers) && (forall j int :: 0 <= j && j <= rangeindex ==> !rematch(m.subResolvers[j].regexp, tag))
+//@   loop 0 invariant same: m.subResolvers == old(m.subResolvers) && (forall j int :: 0 <= j && j < len(m.subResolvers) ==> m.subResolvers[j] == old(m.subResolvers[j]) && m.subResolvers[j] != nil && m.subResolvers[j].regexp == old(m.subResolvers[j].regexp))
